@@ -1,4 +1,5 @@
 """C19 - build ordering respects build-dependencies between the given sources."""
+import re
 import lib
 from props.C06 import spec_set, name_to_triple
 
@@ -154,6 +155,47 @@ def run(chk):
             why = "unexpected outcome " + i[:80]
         if why:
             chk.violate({"kind": "property", "case": lib.show_case(c), "impl": i[:1500], "explanation": why})
+    # several VERSIONS of one source in the set (same Source name, other Version): each is a thing to build - the order is a
+    # permutation of all of them and respects the edges (the sources are told apart by Source_Version)
+    vc, vm = [], []
+    for _ in range(chk.n(300, 6000)):
+        srcs = rand_problem(rng)
+        if len(srcs) < 2:
+            continue
+        for s_ in rng.sample(srcs, rng.randrange(1, max(2, len(srcs) // 2))):
+            s_["source"] = rng.choice(srcs)["source"]
+        texts = []
+        for k, s_ in enumerate(srcs):
+            t = render_dsc(s_, rng)
+            texts.append(re.sub(rb"(?m)^Version: .*$", b"Version: 1.0-%d" % k, t) if re.search(rb"(?m)^Version: ", t) else t + b"Version: 1.0-%d\n" % k)
+        arch = rng.choice(ARCHS)
+        vc.append(("dscorderv", list(name_to_triple(arch)) + texts)); vm.append((srcs, arch))
+    vi = chk.run_impl(vc)
+    chk.record("several-versions-of-one-source", vc, vi, lambda c, r: r.startswith("ok"))
+    for c, i, (srcs, arch) in zip(vc, vi, vm):
+        edges = graph(srcs, arch)
+        ok = acyclic(edges)
+        ids = [s_["source"] + b"_1.0-%d" % k for k, s_ in enumerate(srcs)]
+        why = None
+        if i.startswith("ok"):
+            names = [bytes.fromhex(h[1:]) for h in i.split()[1:] if h.startswith("x")]
+            pos = {n: k for k, n in enumerate(names)}
+            if sorted(names) != sorted(ids):
+                why = "the order is not a permutation of the input (sources that share a Source name)"
+            else:
+                for k in range(len(srcs)):
+                    for p in edges[k]:
+                        if pos[ids[p]] >= pos[ids[k]]:
+                            why = "%s is ordered before %s, which builds a binary it build-depends on" % (ids[k].decode(), ids[p].decode())
+            if not ok and why is None:
+                why = "a dependency cycle did not yield an error"
+        elif i == "err":
+            if ok:
+                why = "an acyclic set of sources yielded an error instead of an order"
+        else:
+            why = "unexpected outcome " + i[:80]
+        if why:
+            chk.violate({"kind": "property", "case": lib.show_case(c), "impl": i[:1500], "explanation": why})
     # the order does not depend on what the process decoded before: a fresh process that has first read a .changes, a
     # Sources and a Packages index and a debian/control gives the same answers
     k = max(1, len(cases) // chk.n(600, 12000))
@@ -168,7 +210,7 @@ def run(chk):
     for c, a, b in zip(cases[::3], impl[::3], again):
         if a != b:
             chk.violate({"kind": "property", "case": lib.show_case(c), "first": a[:800], "second": b[:800], "explanation": "the outcome differs between runs"})
-    chk.assumptions += ["source names are distinct (a set of source packages); pault.ag/go/topsort v0.1.1 is part of the modelled behaviour"]
+    chk.assumptions += ["in the streams compared with the model source names are distinct (the model identifies a source by its position, which since repair bd0eb34 is what the code does too; several versions of one source are exercised by the stream several-versions-of-one-source); pault.ag/go/topsort v0.1.1 is part of the modelled behaviour"]
 
 
 def replay(chk, d):
